@@ -692,7 +692,7 @@ def inject_cycle(rng, case):
     kinds = []
     for i in range(k):
         a, b = ring[i], ring[(i + 1) % k]
-        kind = rng.choice(EDGE_KINDS) if k > 1 else rng.choice(('task_dep', 'setup', 'calc_dep'))
+        kind = rng.choice(EDGE_KINDS) if k > 1 else rng.choice(('task_dep', 'setup', 'calc_dep', 'file'))
         if i == k - 1 and k > 1 and rng.random() < 0.15:
             # closed dynamically: a calc_dep of `a` delivers `b` as task_dep
             others = [t for t in plain if t not in ring and t['calc_res'] is None and not t['calc_dep']
@@ -1092,6 +1092,41 @@ def structured_cases():
                     c = named(base_case(ts, sel, runner, k, cont=cont), 'fail-delivery-cycle')
                     c['fdc'] = shape
                     out.append(c)
+    # the shortest cycle through an implicit file dependency: a task that lists one of its OWN targets as file_dep
+    # (TaskControl.add_implicit_task_dep turns it into task_dep: [itself]) -- written in the dodo file, below a parent
+    # (task_dep / setup / calc_dep), next to other producers, or delivered at run time as file_dep by a calc_dep
+    # (`_process_calc_dep_results` calls add_implicit_task_dep for the delivered files)
+    for runner, k in (('serial', 0), ('thread', 2), ('process', 2)):
+        for shape in ('direct', 'below-task_dep', 'below-setup', 'below-calc_dep', 'calc-delivered',
+                      'calc-delivered-below-parent', 'with-other-producer', 'second-target'):
+            for sel_all in (False, True):
+                if runner == 'process' and (sel_all or shape not in ('direct', 'below-task_dep', 'calc-delivered')):
+                    continue
+                ts = [_task(x) for x in ('free', 'stamp', 'p', 'c', 'other')]
+                tfree, tstamp, tp, tc, tother = ts
+                own = 'f_stamp.out'
+                tstamp['targets'] = [own]
+                sel = ['stamp']
+                if shape in ('calc-delivered', 'calc-delivered-below-parent'):
+                    tstamp['calc_dep'] = ['c']
+                    tc['calc_res'] = {'task_dep': [], 'file_dep': [own], 'calc_dep': []}
+                    if shape == 'calc-delivered-below-parent':
+                        tp['task_dep'] = ['free', 'stamp']
+                        sel = ['p']
+                else:
+                    tstamp['file_dep'] = [own]
+                if shape.startswith('below-'):
+                    tp[shape[len('below-'):]] = ['stamp']
+                    sel = ['p']
+                if shape == 'with-other-producer':
+                    # a second, honest implicit dependency next to the own target
+                    tother['targets'] = ['f_other.out']
+                    tstamp['file_dep'] = ['f_other.out', own]
+                if shape == 'second-target':
+                    tstamp['targets'] = ['f_stamp_a.out', own]
+                c = named(base_case(ts, None if sel_all else sel, runner, k), 'own-target-filedep')
+                c['otf'] = shape
+                out.append(c)
     # a cyclic error raised in the main process while a worker process holds a result bigger than the pipe buffer
     for k in (2, 3):
         for sel, cyc in ((['big1', 'a'], 'self'), (['big1', 'big2', 'a'], 'self'), (['big1', 'a'], 'ring'),
@@ -1472,6 +1507,8 @@ def count_c09(st, case, obs):
             st.count('calc_first:%s' % t['outcome'])
         if t.get('n_actions'):
             st.count('multi_action_task')
+    if case.get('otf'):
+        st.count('own-target-filedep:%s:%s' % (case['otf'], case['runner']))
     if case.get('fdc'):
         st.count('fail-delivery-cycle:%s:%s:%s' % (case['fdc'], case['runner'], 'continue' if case.get('cont') else 'stop'))
     if m.get('calcResFail') and any(m['calcResFail']):
